@@ -16,7 +16,7 @@ DESIGN_REF = "DESIGN.md §3 C20"
 RULE = (
     "Exhaustive grid: count 1..12 x 6 two-ended link classes x connectivity in {default, 0, 0.1, 0.5, 1} x "
     "ensurelink in {True, False} x 40 (quick) / 400 (thorough) seeds of the random module; plus Hypothesis: count "
-    "<= 80, connectivity any float in [0, 1], arbitrary int seed.  Oracle: the call returns (no exception); "
+    "<= 80, 9 link classes (also one with renamed end parameters, one whose constructor takes the two ends only, one derived from both edge classes), connectivity any float in [0, 1], arbitrary int seed.  Oracle: the call returns (no exception); "
     "len(uni.vertices) == count; sorted(v.i) == range(count); every link of every member has exactly the requested "
     "type and both ends inside the universe; with ensurelink every member is v1 of >= 1 link; re-seeding the random "
     "module with the same value gives the same graph - in this process, and as the very first call of two separate fresh interpreters - (same (v1.i, v2.i) list per vertex in the same order).  "
@@ -29,6 +29,7 @@ LEVEL_NOTE = "Trusts reading the result through Universe.vertices / Vertex.links
 TECHNIQUE = "exhaustive parameter grid x sampled RNG seeds + Hypothesis; validity-predicate oracle and seed-reproducibility metamorphic check"
 
 CONN = [None, 0.0, 0.1, 0.5, 1.0]
+CLSMAP = [0, 1, 2, 3, 4, 5, 11, 12, 9]   # + RoadLink (renamed end parameters), BareEdge (two-argument constructor), BothEdge
 
 
 def budget(tier):
@@ -40,7 +41,7 @@ def budget(tier):
 def strategy(tier):
     return st.builds(
         lambda count, cls, conn, ens, seed: {"count": count, "cls": cls, "conn": conn, "ens": ens, "seed": seed},
-        st.integers(1, 80), st.integers(0, 5), st.one_of(st.none(), st.floats(0, 1, allow_nan=False)), st.booleans(), st.integers(),
+        st.integers(1, 80), st.integers(0, 8), st.one_of(st.none(), st.floats(0, 1, allow_nan=False)), st.booleans(), st.integers(),
     )
 
 
@@ -60,7 +61,7 @@ def check_case(case):
     from edgegraph.structure import Universe
     from eglib import classes as C
 
-    E = C.LINK_CLASSES[case["cls"]]
+    E = C.LINK_CLASSES[CLSMAP[case["cls"]]]
     count = case["count"]
     state = random.getstate()
     try:
@@ -115,7 +116,7 @@ def signature(case):
     state = random.getstate()
     try:
         random.seed(case["seed"])
-        kw = dict(count=case["count"], edge=C.LINK_CLASSES[case["cls"]], ensurelink=case["ens"])
+        kw = dict(count=case["count"], edge=C.LINK_CLASSES[CLSMAP[case["cls"]]], ensurelink=case["ens"])
         if case["conn"] is not None:
             kw["connectivity"] = case["conn"]
         u = randgraph.randgraph(**kw)
